@@ -837,9 +837,41 @@ mod cat {
                 let mut m = cryptoxide::blake2b::Blake2b::new(32);
                 m.reset_with_key(&[1; 65]);
             }
-            _ => {
+            9 => {
                 let mut m = cryptoxide::blake2s::Blake2s::new(32);
                 m.reset_with_key(&[1; 33]);
+            }
+            10 => {
+                let _ = cryptoxide::blake2b::Blake2b::new_keyed(0, &[1; 8]);
+            }
+            11 => {
+                let _ = cryptoxide::blake2b::Blake2b::new_keyed(65, &[1; 8]);
+            }
+            12 => {
+                let _ = cryptoxide::blake2s::Blake2s::new_keyed(0, &[1; 8]);
+            }
+            13 => {
+                let _ = cryptoxide::blake2s::Blake2s::new_keyed(33, &[1; 8]);
+            }
+            14 => {
+                let mut out = [0u8; 32];
+                cryptoxide::blake2b::Blake2b::blake2b(&mut out, b"abc", &[1; 65]);
+            }
+            15 => {
+                let mut out = [0u8; 32];
+                cryptoxide::blake2s::Blake2s::blake2s(&mut out, b"abc", &[1; 33]);
+            }
+            16 => {
+                let _ = blake2b::ContextDyn::new_keyed(0, &[1; 8]);
+            }
+            17 => {
+                let _ = blake2b::ContextDyn::new_keyed(65, &[1; 8]);
+            }
+            18 => {
+                let _ = blake2s::ContextDyn::new_keyed(0, &[1; 8]);
+            }
+            _ => {
+                let _ = blake2s::ContextDyn::new_keyed(33, &[1; 8]);
             }
         }
         ret("legacy BLAKE2 object accepted out-of-range parameters")
@@ -1021,7 +1053,7 @@ fn catalogue() -> Vec<Entry> {
         e!("blake2b.key_too_long", cat::b2b_key, &[0, 1, 2, 3, 4, 5]),
         e!("blake2s.key_too_long", cat::b2s_key, &[0, 1, 2, 3, 4, 5]),
         e!("blake2.finalize_at_size", cat::b2_finalize_at, &[0, 1, 2, 3, 4, 5, 6, 7, 8, 9, 10, 11, 12, 13, 14, 15]),
-        e!("legacy_blake2.parameters", cat::legacy_blake2_params, &[0, 1, 2, 3, 4, 5, 6, 7, 8, 9]),
+        e!("legacy_blake2.parameters", cat::legacy_blake2_params, &[0, 1, 2, 3, 4, 5, 6, 7, 8, 9, 10, 11, 12, 13, 14, 15, 16, 17, 18, 19]),
         e!("legacy_digest.result_buffer_size", cat::digest_result_size, &[0, 1, 2, 3, 4, 5, 6, 7, 8, 9, 10, 11, 12, 13, 14, 15, 16, 17, 18, 19, 20, 21, 22, 23, 24, 25, 26, 27, 28, 29, 30, 31, 32, 33, 34, 35]),
         e!("hmac.raw_result_buffer_size", cat::hmac_raw_result_size, &[0, 1, 2, 3, 4, 5, 6, 7, 8, 9, 10, 11, 12, 13, 14, 15, 16, 17, 18, 19, 20, 21, 22, 23, 24, 25, 26, 27, 28, 29, 30, 31, 32, 33, 34, 35]),
         e!("legacy_blake2_mac.raw_result_buffer_size", cat::blake_mac_raw_result_size, &[0, 1, 2, 3]),
